@@ -172,12 +172,13 @@ func HarnessPrintFileOptions() {
 	mOpt := &ext_j5pb.MessageOptions{Type: &ext_j5pb.MessageOptions_Object{Object: &ext_j5pb.ObjectMessageOptions{}}}
 	pOpt := &ext_j5pb.PSMOptions{EntityName: "thing"}
 	msgOpts := &descriptorpb.MessageOptions{}
+	emptyOpts := &descriptorpb.MessageOptions{} // a message with options and nothing else
 	fdp := &descriptorpb.FileDescriptorProto{Name: proto.String("p/v1/x.proto"), Package: proto.String("p.v1"), Syntax: proto.String("proto3"),
 		Dependency: []string{"buf/validate/validate.proto", "j5/ext/v1/annotations.proto", "j5/list/v1/annotations.proto"},
 		MessageType: []*descriptorpb.DescriptorProto{{Name: proto.String("M"), Options: msgOpts, Field: []*descriptorpb.FieldDescriptorProto{
 			{Name: proto.String("a"), Number: proto.Int32(1), Type: str, Label: opt, Options: fieldOpts},
 			{Name: proto.String("b"), Number: proto.Int32(2), Type: str, Label: opt},
-		}}}}
+		}}, {Name: proto.String("Empty"), Options: emptyOpts}}}
 	var file protoreflect.FileDescriptor
 	if verifNative() {
 		proto.SetExtension(fieldOpts, validate.E_Field, vOpt)
@@ -188,6 +189,7 @@ func HarnessPrintFileOptions() {
 		if withMsgOpts {
 			proto.SetExtension(msgOpts, ext_j5pb.E_Message, mOpt)
 			proto.SetExtension(msgOpts, ext_j5pb.E_Psm, pOpt)
+			proto.SetExtension(emptyOpts, ext_j5pb.E_Message, mOpt)
 		}
 		real, err := protodesc.NewFile(fdp, protoregistry.GlobalFiles)
 		if err != nil {
@@ -208,6 +210,9 @@ func HarnessPrintFileOptions() {
 			u.VerifSetFakeOptions("p.v1.M", []j5schema.VerifFakeOption{
 				{Desc: u.VerifFakeExtension("j5.ext.v1", "message", 555000, 3, mOpt.ProtoReflect().Descriptor()), Value: protoreflect.ValueOfMessage(mOpt.ProtoReflect())},
 				{Desc: u.VerifFakeExtension("j5.ext.v1", "psm", 555101, 0, pOpt.ProtoReflect().Descriptor()), Value: protoreflect.ValueOfMessage(pOpt.ProtoReflect())},
+			})
+			u.VerifSetFakeOptions("p.v1.Empty", []j5schema.VerifFakeOption{
+				{Desc: u.VerifFakeExtension("j5.ext.v1", "message", 555000, 3, mOpt.ProtoReflect().Descriptor()), Value: protoreflect.ValueOfMessage(mOpt.ProtoReflect())},
 			})
 		}
 		// every Range over an options message picks its own order
@@ -238,4 +243,24 @@ func HarnessPrintFileOptions() {
 		verifAssert(string(first) == "", "DEBUG:"+string(first))
 	}
 	verifAssert(string(first) == string(second), "two-prints-of-the-options-identical")
+	// every option that was set is printed, once
+	count := func(sub string) int {
+		n := 0
+		for i := 0; i+len(sub) <= len(first); i++ {
+			if string(first[i:i+len(sub)]) == sub {
+				n++
+			}
+		}
+		return n
+	}
+	verifAssert(count("(buf.validate.field)") == 1 && count("(j5.list.v1.field)") == 1, "field-options-printed-once-each")
+	wantKey, wantMsg, wantPsm := 0, 0, 0
+	if withKey {
+		wantKey = 1
+	}
+	if withMsgOpts {
+		wantMsg, wantPsm = 2, 1
+	}
+	verifAssert(count("(j5.ext.v1.key)") == wantKey, "key-option-printed-iff-set")
+	verifAssert(count("(j5.ext.v1.message)") == wantMsg && count("(j5.ext.v1.psm)") == wantPsm, "message-options-printed-also-on-a-message-without-fields")
 }
